@@ -3,6 +3,7 @@ package props
 import (
 	"encoding/json"
 	"fmt"
+	"hash/fnv"
 	"os"
 	"os/exec"
 	"path/filepath"
@@ -176,6 +177,27 @@ func SelfTest(def *Def, res *chk.Result, repo string) {
 	// refactors
 	rfs, _ := filepath.Glob(filepath.Join(VerifDir, "refactors", "*", "patch.diff"))
 	sort.Strings(rfs)
+	nAll := len(rfs)
+	// Each property's run analyses the variants written for that property and a fixed
+	// quarter of the others (by a hash of the name), so that twenty thorough runs cost
+	// about five passes over the collection instead of twenty; every variant is still
+	// analysed by five properties' runs, and tools/regress.sh analyses every variant under
+	// every property. JRPCVET_ALL_REFACTORS=1 selects all of them.
+	if os.Getenv("JRPCVET_ALL_REFACTORS") == "" {
+		var sel []string
+		for _, rf := range rfs {
+			name := filepath.Base(filepath.Dir(rf))
+			own := strings.Contains(name+"-", "-"+def.ID+"-")
+			h := fnv.New32a()
+			h.Write([]byte(name))
+			var pi uint32
+			fmt.Sscanf(strings.TrimPrefix(def.ID, "C"), "%d", &pi)
+			if own || h.Sum32()%4 == pi%4 {
+				sel = append(sel, rf)
+			}
+		}
+		rfs = sel
+	}
 	silent, rstale := 0, 0
 	if clean {
 		type rfRes struct {
@@ -217,6 +239,7 @@ func SelfTest(def *Def, res *chk.Result, repo string) {
 		}
 	}
 	st["refactor_variants"] = len(rfs)
+	st["refactor_variants_stored"] = nAll
 	st["refactor_silent"] = silent
 	st["refactor_stale"] = rstale
 	st["refactors_run"] = clean
